@@ -77,6 +77,8 @@ def pka_text(mol):
 
 
 def gkey(group):
+    if not hasattr(group, 'type') and hasattr(group, 'group'):
+        group = group.group   # determinants of the iterative solver point to Iterative wrappers
     a = group.atom
     return (a.chain_id, a.res_num, a.icode, a.res_name.strip(), a.name, group.type)
 
